@@ -54,9 +54,20 @@ func (m *unExportedVarMocker) String() string {
 //
 // 注意: Set 会覆盖之前设定 Apply 的值
 func (m *unExportedVarMocker) Set(value interface{}) {
+	m.set(value)
+	logger.Consolefc(logger.DebugLevel, "mocker [%s] apply.", logger.Caller(5), m.String())
+}
+
+// Apply 变量取值回调函数, 只会执行一次
+// 注意: Apply 会覆盖之前设定 Set 的值
+func (m *unExportedVarMocker) Apply(callback interface{}) {
+	m.set(callVarCallback(callback))
+	logger.Consolefc(logger.DebugLevel, "mocker [%s] apply.", logger.Caller(5), m.String())
+}
+
+func (m *unExportedVarMocker) set(value interface{}) {
 	m.typ = reflect.TypeOf(value)
 	m.targetValue = reflect.NewAt(m.typ, m.target)
 	// TODO 检查类型是否匹配
 	m.defaultVarMocker.doSet(value)
-	logger.Consolefc(logger.DebugLevel, "mocker [%s] apply.", logger.Caller(5), m.String())
 }
